@@ -329,7 +329,7 @@ def record_step(sc, direction):
           "N": sc["N"], "free": sc["free"], "h1first": sc["h1first"], "ev": rec.events, "outcome": outcome,
           "input_untouched": bool(np.array_equal(state.pos, before[0]) and np.array_equal(state.mom, before[1]) and state.dir == before[2]),
           "final_man": True, "final_cot": True, "roundtrip_ok": True, "consistent_pos": True, "consistent_mom": True,
-          "sampled_cot": True}
+          "sampled_cot": True, "stress_ok": True}
     if "Constrained" in sc["kind"]:
         # every sampled momentum and every momentum projection lies in the cotangent space
         from mici.states import ChainState
@@ -399,6 +399,55 @@ def measure_consistency(sc):
     return ok_q, ok_p, ratio
 
 
+def stress_roundtrips(sc, n_trials):
+    """Round trips from hard states (large momenta / large steps, where implicit equations have several
+    solutions): every step that RETURNS must be undone by flip + step, otherwise an IntegratorError must
+    have been raised.  Returns (ok, n_returned, worst_error)."""
+    import mici.integrators as I
+    import mici.solvers as S
+    from mici.errors import IntegratorError
+    from mici.states import ChainState
+
+    rng = np.random.default_rng(17)
+    worst, returned = 0.0, 0
+    for t in range(n_trials):
+        if sc["integ"] == "constrained":
+            model = zoo.Model(2, curved="wavy")
+            system = zoo.make_system(sc["kind"], model, metric="diag")
+            step = float(rng.choice([0.3, 0.6, 1.0]))
+            solver = {"newton": S.solve_projection_onto_manifold_newton,
+                      "quasi_newton": S.solve_projection_onto_manifold_quasi_newton,
+                      "newton_line_search": S.solve_projection_onto_manifold_newton_with_line_search}[sc["solver"]]
+            integ = I.ConstrainedLeapfrogIntegrator(system, step, n_inner_step=sc["N"], projection_solver=solver)
+            q0 = rng.uniform(-1.5, 1.5)
+            pos = np.array([q0, np.sin(3 * q0)])
+            st0 = ChainState(pos=pos, mom=None, dir=1)
+            mom = system.project_onto_cotangent_space(rng.standard_normal(2) * rng.choice([1.0, 3.0]), st0)
+        else:
+            model = zoo.Model(3)
+            system = zoo.make_system(sc["kind"], model, flavour=sc.get("flavour", "diag"))
+            step = float(rng.choice([0.25, 0.35, 0.5]))
+            fps = S.solve_fixed_point_direct if t % 2 == 0 else S.solve_fixed_point_steffensen
+            cls = I.ImplicitLeapfrogIntegrator if sc["integ"] == "implicit_leapfrog" else I.ImplicitMidpointIntegrator
+            integ = cls(system, step, fixed_point_solver=fps)
+            pos = rng.uniform(-0.3, 0.3, 3)
+            mom = rng.standard_normal(3) * rng.uniform(3.0, 10.0)
+        state = ChainState(pos=np.array(pos), mom=np.array(mom), dir=int(rng.choice([1, -1])))
+        try:
+            s1 = integ.step(state)
+            s1 = s1.copy()
+            s1.dir = -s1.dir
+            s2 = integ.step(s1)
+        except IntegratorError:
+            continue
+        except Exception:  # noqa: BLE001  (a foreign exception is judged by the step traces)
+            continue
+        returned += 1
+        err = max(float(np.max(np.abs(s2.pos - state.pos))), float(np.max(np.abs(s2.mom - state.mom))))
+        worst = max(worst, err / max(1.0, float(np.max(np.abs(state.mom)))))
+    return worst <= 1e-5, returned, worst
+
+
 TRACE_CFG = """SPECIFICATION TraceSpec
 CONSTANTS
   Grid <- GridDef
@@ -431,11 +480,13 @@ def validate(traces, name):
 
     def tr_tla(t):
         return ("[kind |-> %s, N |-> %d, free |-> %s, h1first |-> %s, ev |-> <<%s>>, outcome |-> %s, input_untouched |-> %s, "
-                "final_man |-> %s, final_cot |-> %s, roundtrip_ok |-> %s, consistent_pos |-> %s, consistent_mom |-> %s, sampled_cot |-> %s]") % (
+                "final_man |-> %s, final_cot |-> %s, roundtrip_ok |-> %s, consistent_pos |-> %s, consistent_mom |-> %s, sampled_cot |-> %s, "
+                "stress_ok |-> %s]") % (
             tlc.tla_str(t["kind"]), t["N"], tlc.to_tla(t["free"]) if t["free"] else "<<>>", tlc.to_tla(t["h1first"]),
             ", ".join(ev_tla(e) for e in t["ev"]), tlc.tla_str(t["outcome"].split(":")[0]), tlc.to_tla(t["input_untouched"]),
             tlc.to_tla(t["final_man"]), tlc.to_tla(t["final_cot"]), tlc.to_tla(t["roundtrip_ok"]),
-            tlc.to_tla(t["consistent_pos"]), tlc.to_tla(t["consistent_mom"]), tlc.to_tla(t["sampled_cot"]))
+            tlc.to_tla(t["consistent_pos"]), tlc.to_tla(t["consistent_mom"]), tlc.to_tla(t["sampled_cot"]),
+            tlc.to_tla(t["stress_ok"]))
 
     (d / "TraceDataInt.tla").write_text("---- MODULE TraceDataInt ----\nEXTENDS Integers\nTraces == <<\n "
                                         + ",\n ".join(tr_tla(t) for t in traces) + "\n>>\n====\n")
@@ -477,6 +528,12 @@ def run_traces(tier, name):
             if cs is not None:
                 tr["consistent_pos"], tr["consistent_mom"], tr["ratio"] = cs
             tr["sc"], tr["direction"] = sc, direction
+            if direction == 1 and not sc.get("expect_fail") and (
+                    (sc["integ"] in ("implicit_leapfrog", "implicit_midpoint") and sc["kind"] in ("Riemannian", "SoftAbs")
+                     and sc.get("flavour", "diag") in ("diag", "scalar", "-"))
+                    or (sc["integ"] == "constrained" and sc["kind"] == "Constrained" and sc.get("curved", True))):
+                ok, nret, worst = stress_roundtrips(sc, 60 if tier == "quick" else 400)
+                tr["stress_ok"], tr["stress_worst"], tr["stress_returned"] = ok, worst, nret
             traces.append(tr)
     fails, states = validate(traces, name)
     by_trace = {}
@@ -497,7 +554,8 @@ def run_traces(tier, name):
                       "TimeBudget": f"component time budgets differ from one step size (events {evs})",
                       "Consistent": f"displacement over a step of size eps is {tr.get('ratio')} x eps * dH/dp (must be 1)",
                       "ReverseChecked": f"reverse-check protocol violated (outcome {tr['outcome']}, events {[(e['op'], e['ok']) for e in tr['ev']]})",
-                      "RoundTrip": f"n steps, flip, n steps misses the start by {tr.get('rt_err')}",
+                      "RoundTrip": f"n steps, flip, n steps misses the start by {tr.get('rt_err')}; hard-state round trips: "
+                                   f"{tr.get('stress_returned')} returned, worst relative miss {tr.get('stress_worst')} (a returned step that is not undone by flip + step must raise an IntegratorError instead)",
                       "InputUntouched": "the input state object was modified by step()",
                       "StaysOnManifold": f"state left the manifold / cotangent space (events {[(e['op'], e['man'], e['cot']) for e in tr['ev']]}, "
                                          f"final {tr['final_man']}/{tr['final_cot']}, sampled momenta in cotangent space: {tr['sampled_cot']})"}[inv]
